@@ -478,13 +478,29 @@ impl Retrier {
         while self.has_pending_appointments() {
             let locators = self.pending_appointments.lock().unwrap().clone();
             for locator in locators.into_iter() {
-                let appointment = self
-                    .wt_client
-                    .lock()
-                    .unwrap()
-                    .dbm
-                    .load_appointment(locator)
-                    .unwrap();
+                // The same locator may be queued again once it has been delivered (if the revocation is notified
+                // again while the delivery is in flight). There is nothing left to send then: the data may be gone
+                // already, and removing the pending link once more would delete data held for other towers.
+                let appointment = {
+                    let wt_client = self.wt_client.lock().unwrap();
+                    if wt_client
+                        .towers
+                        .get(&tower_id)
+                        .map_or(false, |t| t.pending_appointments.contains(&locator))
+                    {
+                        wt_client.dbm.load_appointment(locator)
+                    } else {
+                        None
+                    }
+                };
+                let appointment = match appointment {
+                    Some(appointment) => appointment,
+                    None => {
+                        log::debug!("{locator} is not pending for {tower_id} anymore, skipping it");
+                        self.pending_appointments.lock().unwrap().remove(&locator);
+                        continue;
+                    }
+                };
 
                 match http::add_appointment(
                     tower_id,
